@@ -1,8 +1,15 @@
 //! `impl PartialEq<Rhs> for Lhs` of the four containers.
+//!
+//! The body of `eq` is brought into a canonical form before it is classified, so that rewrites which
+//! cannot change the answer keep their classification: closure binders are renamed by position, the
+//! operands of `==` are ordered, blocks and parentheses around a single expression are dropped, and the
+//! equivalent spellings of "the option holds a value for which the predicate is true"
+//! (`.map(p) == Some(true)`, `.map_or(false, p)`, `.is_some_and(p)`, `matches!`-free `== Some(true)`
+//! mirrored) all become `optTrue`.
 
 use crate::{lean, parse_file, toks};
 use std::path::Path;
-use syn::{ImplItem, Item};
+use syn::{Expr, ImplItem, Item, Pat};
 
 fn squash(s: &str) -> String {
     s.chars().filter(|c| !c.is_whitespace()).collect()
@@ -12,8 +19,145 @@ fn base(t: &str) -> String {
     squash(t).split('<').next().unwrap_or("").to_string()
 }
 
+struct Canon {
+    /// (source name, canonical name = `$<binding depth>`), innermost last
+    env: Vec<(String, String)>,
+}
+
+impl Canon {
+    fn bind(&mut self, p: &Pat, out: &mut String) {
+        match p {
+            Pat::Ident(i) => {
+                let c = format!("${}", self.env.len());
+                self.env.push((i.ident.to_string(), c.clone()));
+                out.push_str(&c);
+            }
+            Pat::Tuple(t) => {
+                out.push('(');
+                for (n, e) in t.elems.iter().enumerate() {
+                    if n > 0 {
+                        out.push(',');
+                    }
+                    self.bind(e, out);
+                }
+                out.push(')');
+            }
+            Pat::Paren(p) => self.bind(&p.pat, out),
+            Pat::Reference(r) => {
+                out.push('&');
+                self.bind(&r.pat, out)
+            }
+            Pat::Type(t) => self.bind(&t.pat, out),
+            other => out.push_str(&squash(&toks(other))),
+        }
+    }
+
+    fn closure(&mut self, c: &syn::ExprClosure) -> String {
+        let depth = self.env.len();
+        let mut s = String::from("|");
+        for (n, p) in c.inputs.iter().enumerate() {
+            if n > 0 {
+                s.push(',');
+            }
+            self.bind(p, &mut s);
+        }
+        s.push('|');
+        s.push_str(&self.expr(&c.body));
+        self.env.truncate(depth);
+        s
+    }
+
+    fn is_some_true(e: &Expr) -> bool {
+        squash(&toks(e)) == "Some(true)"
+    }
+
+    fn opt_true(&mut self, recv: &Expr, pred: &Expr) -> String {
+        let r = self.expr(recv);
+        let p = self.expr(pred);
+        format!("optTrue({r},{p})")
+    }
+
+    fn expr(&mut self, e: &Expr) -> String {
+        match e {
+            Expr::Paren(p) => self.expr(&p.expr),
+            Expr::Group(g) => self.expr(&g.expr),
+            Expr::Block(b) if b.block.stmts.len() == 1 && b.label.is_none() => match &b.block.stmts[0] {
+                syn::Stmt::Expr(x, None) => self.expr(x),
+                _ => squash(&toks(e)),
+            },
+            Expr::Closure(c) => self.closure(c),
+            Expr::Path(p) if p.path.segments.len() == 1 && p.qself.is_none() => {
+                let id = p.path.segments[0].ident.to_string();
+                for (src, c) in self.env.iter().rev() {
+                    if *src == id {
+                        return c.clone();
+                    }
+                }
+                id
+            }
+            Expr::Reference(r) => format!("&{}", self.expr(&r.expr)),
+            Expr::Unary(u) => format!("{}{}", squash(&toks(&u.op)), self.expr(&u.expr)),
+            Expr::Field(f) => format!("{}.{}", self.expr(&f.base), squash(&toks(&f.member))),
+            Expr::Binary(b) => {
+                let op = squash(&toks(&b.op));
+                if op == "==" {
+                    // `X.map(p) == Some(true)` in either order
+                    for (a, o) in [(&*b.left, &*b.right), (&*b.right, &*b.left)] {
+                        if Self::is_some_true(o) {
+                            if let Expr::MethodCall(m) = a {
+                                if m.method == "map" && m.args.len() == 1 {
+                                    return self.opt_true(&m.receiver, &m.args[0]);
+                                }
+                            }
+                        }
+                    }
+                    let mut l = self.expr(&b.left);
+                    let mut r = self.expr(&b.right);
+                    if r < l {
+                        std::mem::swap(&mut l, &mut r);
+                    }
+                    return format!("eq({l},{r})");
+                }
+                format!("({}{}{})", self.expr(&b.left), op, self.expr(&b.right))
+            }
+            Expr::MethodCall(m) => {
+                let name = m.method.to_string();
+                if name == "map_or" && m.args.len() == 2 && squash(&toks(&m.args[0])) == "false" {
+                    return self.opt_true(&m.receiver, &m.args[1]);
+                }
+                if name == "is_some_and" && m.args.len() == 1 {
+                    return self.opt_true(&m.receiver, &m.args[0]);
+                }
+                let r = self.expr(&m.receiver);
+                let args: Vec<String> = m.args.iter().map(|a| self.expr(a)).collect();
+                format!("{r}.{name}({})", args.join(","))
+            }
+            Expr::Call(c) => {
+                let f = squash(&toks(&*c.func));
+                let args: Vec<String> = c.args.iter().map(|a| self.expr(a)).collect();
+                format!("{f}({})", args.join(","))
+            }
+            other => squash(&toks(other)),
+        }
+    }
+}
+
+fn canon_body(block: &syn::Block) -> String {
+    let mut c = Canon { env: Vec::new() };
+    if block.stmts.len() == 1 {
+        if let syn::Stmt::Expr(x, None) = &block.stmts[0] {
+            return c.expr(x);
+        }
+    }
+    squash(&toks(block))
+}
+
 pub fn emit(src: &Path, out: &mut String) {
     let mut items = Vec::new();
+    // canonical forms of the bodies the model mirrors
+    let strings_eq = "eq(other.strings,self.strings)";
+    let vec_form = "(eq(other.strings.len(),self.strings.len())&&other.strings.iter().enumerate().all(|($0,$1)|optTrue(K::try_from_usize($0).and_then(|$2|self.strings.get(&$2)),|$2|eq($1,$2.value()))))";
+    let self_form = "(eq(other.strings.len(),self.strings.len())&&self.strings.iter().all(|$0|optTrue(other.strings.get($0.key()),|$1|eq($0.value(),$1.value()))))";
     for f in ["rodeo.rs", "reader.rs", "resolver.rs", "threaded_rodeo.rs"] {
         let path = src.join(f);
         if !path.exists() {
@@ -37,10 +181,8 @@ pub fn emit(src: &Path, out: &mut String) {
             for it in &imp.items {
                 if let ImplItem::Fn(func) = it {
                     if func.sig.ident == "eq" {
-                        let body = squash(&toks(&func.block));
-                        let vec_form = "{self.strings.len()==other.strings.len()&&other.strings.iter().enumerate().all(|(key,string)|{K::try_from_usize(key).and_then(|key|self.strings.get(&key)).map(|s|s.value()==string)==Some(true)})}";
-                        let self_form = "{self.strings.len()==other.strings.len()&&self.strings.iter().all(|left|{other.strings.get(left.key()).map(|s|s.value()==left.value())==Some(true)})}";
-                        shape = if body == "{self.strings==other.strings}" {
+                        let body = canon_body(&func.block);
+                        shape = if body == strings_eq {
                             ".stringsEq".into()
                         } else if (body == vec_form && rhs != lhs) || (body == self_form && rhs == lhs) {
                             ".lenAndAllLookup".into()
